@@ -3,7 +3,7 @@ final loads, and probes (the reader for each writer).  Everything is plain PHREE
 nothing here is derived from the engine source.
 
 An operation is a list of steps; a step is (function, argument...) executed through the C binding on slot 0:
-  ("RunString", text) ("RunFile", name) ("LoadDatabase", db-file-name) ("LoadDatabaseString", key) (setter, value...)
+  ("RunString", text) ("RunFile", name) ("writefile", name, text: creates the file in the scratch directory) ("LoadDatabase", db-file-name) ("LoadDatabaseString", key) (setter, value...)
 Database names are resolved against <repo>/database; "LoadDatabaseString" keys name a text in DBTEXT.
 """
 import os
@@ -123,20 +123,24 @@ S["sit"] = [("RunString", "SIT\n -epsilon\n Na+ Cl- 0.03\nSOLUTION 1\n pH 7\n Na
 
 S["brine"] = [("RunString", "SOLUTION 1\n temp 40\n pH 7 charge\n Na 3000\n Cl 3000\n Ca 200\n S(6) 100\n K 100\n Mg 50\nEQUILIBRIUM_PHASES 1\n Gypsum 0 0\nEND\n")]
 
-S["title"] = [("RunString", "TITLE residue of an earlier run\n" + SOL1 + "END\n")]
-
 S["dumpf"] = [("SetDumpFileOn", 1), ("RunString", SOL1 + "DUMP\n -file hist_dump.txt\n -append true\n -solution 1\nEND\n")]
 
-S["userprint"] = [("RunString", "USER_PRINT\n 10 PRINT \"history user print\", TOT(\"Na\")\nUSER_PUNCH 1\n -headings hp\n 10 PUNCH 77\n" + SOL1 + "END\n")]
+S["userprint"] = [("RunString", "TITLE residue of an earlier run\nUSER_PRINT\n 10 PRINT \"history user print\", TOT(\"Na\")\nUSER_PUNCH 1\n -headings hp\n 10 PUNCH 77\n" + SOL1 + "END\n")]
 
 S["spread"] = [("RunString", "SOLUTION_SPREAD\n -units mmol/kgw\n -temp 30\n Number\tpH\tNa\tCl\n 1\t7\t1\t1\n 2\t8\t2\t2\nEND\n"
                 "NAMED_EXPRESSIONS\n My_expr\n H2O = H2O\n log_k 1.5\nEND\n")]
+
+S["params"] = [("RunString", "RATE_PARAMETERS_PK\nMymin -30 0 0 -13.4 90.9 -30 0 0\nRATE_PARAMETERS_HERMANSKA\nMymin -10 1 50 0.5 -12 1 60 -30 0 0 0\n"
+                "RATE_PARAMETERS_SVD\nMymin 3350 2500 1680 1200 3100 14.6 0.5 0.4 0.4 0.4 0.5 16.8 0.15 4 0.15 200 3 900 16.05 0.6 14.7 0.5 5 15.4 0.3 0.1 12 0.5 5 3 900\n"
+                "MEAN_GAMMAS\nMysalt Na+ 1 Cl- 1\nGAS_BINARY_PARAMETERS\nH2O(g) CO2(g) 0.9\nCO2(g) Mtg(g) 0.35\n" + SOL1 + "END\n")]
+
+S["runfile"] = [("writefile", "hist_input.pqi", "TITLE from a file\n" + SOL1 + "END\n"), ("RunFile", "hist_input.pqi")]
 
 # database switches
 S["db_pitzer"] = [("LoadDatabase", "pitzer.dat")]
 S["db_sit"] = [("LoadDatabase", "sit.dat")]
 S["db_llnl"] = [("LoadDatabase", "llnl.dat")]
-S["db_iso"] = [("LoadDatabase", "iso.dat")]
+S["db_rates"] = [("LoadDatabase", "phreeqc_rates.dat")]
 S["db_mini"] = [("LoadDatabaseString", "mini")]
 S["db_same"] = [("LoadDatabase", "phreeqc.dat")]
 
@@ -159,6 +163,10 @@ F = {}
 F["f_syntax"] = [("RunString", "SOLUTION 1\n pH 7\n Na 1\n Cl 1 as as as\n -bogus_option 3\nKNOBS\n -iterations none\n -bogus\nEND\n")]
 F["f_phase"] = [("RunString", SOL1 + "EQUILIBRIUM_PHASES 1\n NoSuchPhase 0 1\nEND\n")]
 F["f_conv"] = [("RunString", "SOLUTION 1\n pH 7\n Na 1\nPHASES\n Fix_H+\n H+ = H+\n log_k 0\nEQUILIBRIUM_PHASES\n Fix_H+ -10 HCl 10\nEND\n")]
+CONVFAIL = "SOLUTION 1\n pH 7\n Na 1\nPHASES\n Fix_H+\n H+ = H+\n log_k 0\nEQUILIBRIUM_PHASES\n Fix_H+ -10 HCl 10\n"
+# requests that are read with the input but carried out only after the calculations: the run stops before they are
+F["f_dump"] = [("SetDumpFileOn", 1), ("SetDumpStringOn", 1), ("RunString", CONVFAIL + "DUMP\n -file pending_dump.txt\n -all\nEND\n")]
+F["f_pending"] = [("RunString", CONVFAIL + "COPY solution 1 8\nDELETE\n -solution 1\nRUN_CELLS\n -cells 1\n -time_step 10\nEND\n")]
 F["f_runfile"] = [("RunFile", "no_such_input_file.pqi")]
 F["f_basic"] = [("RunString", BADRATE + "SOLUTION 1\n pH 7\n Na 1\n Cl 1\nKINETICS 1\n badrate\n  -formula NaCl 1\n  -m0 1e-3\n -steps 100 in 4 steps\nEND\n")]
 F["f_trans"] = [("RunString", BADRATE + "SOLUTION 0\n pH 7\n Ca 1\n Cl 2\nSOLUTION 1-3\n pH 7\n Na 1\n Cl 1\n"
@@ -201,6 +209,14 @@ P["basic"] = [("RunString", "USER_PRINT\n 10 PRINT \"get\", GET(1), GET(2, 3), \
 P["calc"] = [("RunString", "USER_PRINT\n 10 PRINT CALC_VALUE(\"myval\")\n" + SOL1 + "END\n")]
 P["rate"] = [("RunString", SOL1 + "KINETICS 1\n myrate\n  -formula NaCl 1\n  -m0 1e-3\n -steps 10\nEND\n")]
 P["rate2"] = [("RunString", SOL1 + "KINETICS 1\n decay\n  -formula NaCl 1\n  -m0 1e-3\n -steps 10\nEND\n")]
+# parameter tables that only an earlier definition / another database provides
+P["ratepk"] = [("RunString", "USER_PRINT\n 10 PRINT \"pk\", RATE_PK(\"Mymin\")\n" + SOL1 + "END\n")]
+P["ratedb"] = [("RunString", "USER_PRINT\n 10 PRINT \"pk\", RATE_PK(\"Quartz\")\n" + SOL1 + "END\n")]
+P["ratesvd"] = [("RunString", "USER_PRINT\n 10 PRINT \"svd\", RATE_SVD(\"Albite\")\n" + SOL1 + "END\n")]
+P["rateher"] = [("RunString", "USER_PRINT\n 10 PRINT \"hermanska\", RATE_HERMANSKA(\"Mymin\")\n" + SOL1 + "END\n")]
+P["meang"] = [("RunString", "USER_PRINT\n 10 PRINT \"mean gamma\", MEANG(\"NaCl\")\n 20 PRINT MEANG(\"Mysalt\")\n" + SOL1 + "END\n")]
+P["gasbin"] = [("RunString", HP + " -gases CO2(g) H2O(g) Mtg(g)\nUSER_PUNCH\n -headings phi_co2 p_h2o phi_mtg\n 10 PUNCH PR_PHI(\"CO2(g)\"), PR_P(\"H2O(g)\"), PR_PHI(\"Mtg(g)\")\n"
+                "SOLUTION 1\n temp 50\n pH 7\n Na 1\n Cl 1\nGAS_PHASE 1\n -fixed_volume\n -volume 1\n -temperature 50\n CO2(g) 30\n H2O(g) 0.1\n Mtg(g) 20\nEND\n")]
 # no SELECTED_OUTPUT / USER_PUNCH / USER_PRINT defined: nothing may be left of the history's definitions
 P["noso"] = [("SetCurrentSelectedOutputUserNumber", 2), ("SetSelectedOutputStringOn", 1), ("SetSelectedOutputFileOn", 1),
                       ("RunString", SOL1 + "END\n")]
@@ -241,13 +257,36 @@ P["inv"] = [("RunString", "SOLUTION 1\n pH 7\n Na 1\n Cl 1\nSOLUTION 2\n pH 7\n 
 P["err"] = [("RunString", "SOLUTION 1\n pH 7\n Na 1\n Qq 1\nEQUILIBRIUM_PHASES 1\n NoSuchPhase 0 1\nEND\n")]
 # accumulate / run accumulated
 P["acc"] = [("AccumulateLine", "SOLUTION 1"), ("AccumulateLine", " pH 7"), ("AccumulateLine", " Na 1"), ("RunAccumulated",)]
+P["runfile"] = [("writefile", "probe_input.pqi", SOL1 + "END\n"), ("RunFile", "probe_input.pqi")]
 # KNOBS-free log capture is part of every ALL_ON probe; one probe asks for the log explicitly (the fresh instance must agree)
 P["log"] = [("RunString", "KNOBS\n -logfile true\n" + SOL1 + "EQUILIBRIUM_PHASES 1\n Calcite 0 1\nEND\n")]
 
-PROBE_ORDER = ["none", "bare", "spec", "iter", "basic", "calc", "rate", "rate2", "noso", "so", "use", "use1", "react", "trans", "trans7", "adv", "kin",
-               "dump", "elem", "elem2", "eqxx", "exsurf", "brine", "inv", "err", "acc", "log"]
+# Probe chains: every chain starts on its own forked copy of the untouched post-load instance and runs its probes one after
+# the other (full observation after each), so the first probe of a chain is the first call after the load.  The chain
+# 'bare' runs before the check switches every sink on.
+CHAINS = [
+    ("bare", ["none", "bare"]),
+    ("speciation", ["spec", "iter", "brine", "react", "exsurf", "elem", "elem2", "gasbin"]),
+    ("definitions", ["basic", "calc", "rate", "rate2", "ratepk", "ratedb", "ratesvd", "rateher", "meang", "use", "use1", "eqxx", "err"]),
+    ("sinks", ["noso", "so", "dump", "acc", "runfile", "log"]),
+    ("transport", ["trans", "adv"]),
+    ("stagnant", ["trans7"]),
+    ("kinetics", ["kin", "inv"]),
+]
+PROBE_ORDER = [p for _, ps in CHAINS for p in ps]
 assert sorted(PROBE_ORDER) == sorted(P)
 
 # ops that must not run under the sanitizer build (UBSan reports a benign one-before-the-array pointer in integrate.cpp for
 # -diffuse_layer surfaces; that is not part of the statement)
 NOSAN = {"surfdl"}
+# probes that must not run under the sanitizer build: on a new instance they take the not-found branch of RATE_PK / RATE_SVD /
+# RATE_HERMANSKA / MEANG, which prints the looked-up name from an already freed buffer (ASan: heap-use-after-free in PBasic.cpp)
+NOSAN_PROBES = {"ratepk", "ratedb", "ratesvd", "rateher", "meang"}
+
+
+def probes(variant):
+    return [p for p in PROBE_ORDER if not (variant == "san" and p in NOSAN_PROBES)]
+
+
+def chains(variant):
+    return [(c, [p for p in ps if not (variant == "san" and p in NOSAN_PROBES)]) for c, ps in CHAINS]
